@@ -428,7 +428,7 @@ def x6(cx: Cx, ob: Ob) -> None:
     scan_none_discipline(cx, ob, none_scope(cx))
 
 
-@obligation("C16-X12", "def-use lints over the files this property is anchored in (api.py): no one-shot iterator (generator expression, map, filter, zip, iter, reversed, enumerate, generator call) bound to a name is consumed twice or inside a loop that starts after its creation; no mutable default argument is mutated, stored or returned", floor=1)
+@obligation("C16-X12", "def-use lints over the files this property is anchored in (api.py): no one-shot iterator (generator expression, map, filter, zip, iter, reversed, enumerate, generator call) bound to a name is consumed twice or inside a loop that starts after its creation; no mutable default argument is mutated, stored or returned; no binary search over a sequence that is not kept sorted; no container resized inside the loop that iterates it; no Iterable parameter consumed twice before it is materialised; itertools.groupby only over input sorted by the grouping key", floor=1)
 def x12(cx: Cx, ob: Ob) -> None:
     from ..rules import package_lints
 
